@@ -91,7 +91,21 @@ def judge_balanced(events, shards, tag, timeout=3600):
     return verdicts, stats
 
 
-def decide(run, jobs, leg, shards):
+def decide(run, jobs, leg, shards, chunk=120000):
+    """judge what the formatter prints for jobs (in chunks, to bound memory); returns (unsupported count, a few results)"""
+    nunsup, keep = 0, []
+    for k in range(0, len(jobs), chunk):
+        u, res = decide_chunk(run, jobs[k:k + chunk], leg if len(jobs) <= chunk else "%s%d" % (leg, k // chunk), shards)
+        nunsup += u
+        rng = random.Random(k)
+        keep += rng.sample(res, min(4, len(res)))
+        longest = max(res, key=lambda r: len(r.get("text", ())), default=None)
+        if longest is not None:
+            keep.append(longest)
+    return nunsup, keep
+
+
+def decide_chunk(run, jobs, leg, shards):
     t0 = time.time()
     res = numkit.run_num(jobs, shards=shards, tag="c05" + leg)
     t1 = time.time()
@@ -119,6 +133,8 @@ def decide(run, jobs, leg, shards):
                     text[:80], case["p"], case["q"], case["base"], case["mode"]))
         if not (r["mode"] == "default" and case["q"] == 1 and abs(case["p"]) < r["base"]):
             run.nontrivial((case["p"], case["q"], case["base"], case["mode"], case["n"]))
+        if len(text) > 200:
+            run.notes["long_numerals_over_200_chars"] = run.notes.get("long_numerals_over_200_chars", 0) + 1
         if "REJECT" in v:
             case["text"] = text[:200]
             run.violation(case, "exact numerals denote p/q; approximate numerals are p/q truncated toward zero within one unit of the "
@@ -182,9 +198,7 @@ def run(tier, seed):
     u2, res2 = decide(run, long_jobs, "long", shards)
     longest = max(res2, key=lambda r: len(r.get("text", ())), default=None)
     run.note("unsupported_numerals", u1 + u2)
-    run.note("long_numerals_over_200_chars", sum(1 for r in res2 if len(r.get("text", ())) > 200))
-    rng = random.Random(seed)
-    for r in rng.sample(res1, 3) + rng.sample(res2, 2) + ([longest] if longest else []):
+    for r in res1[:3] + res2[:2] + ([longest] if longest else []):
         if "text" in r:
             d = describe(r)
             d.update({"is_exact": r["is_exact"], "text": numkit.txt(r["text"])[:120]})
